@@ -417,6 +417,22 @@ def r06_6(run):
             run.ob('R06.6', u, c, '%s is returned exactly under isinstance(parsed, ipaddress.%s)' % (fam, fam_cls[fam]), ok, slot='family-guard:%s' % fam,
                    message='the %s address object is not guarded by isinstance(<parsed>, ipaddress.%s)' % (fam, fam_cls[fam]))
     run.floor('R06.6', 'classifier obligations', k, 5)
+    # the constructor hands the caller's host to the classifier unchanged (str() of it at most)
+    mi = run.idx.find_method(machine(run), '__init__')
+    hp2 = 'host' if 'host' in mi.params else None
+    if hp2 is None:
+        raise AnchorVanished('_SocksMachine.__init__ host parameter')
+    for n in walk_unit(mi):
+        if isinstance(n, (ast.Assign, ast.AugAssign)) and hp2 in assigned_targets(n):
+            v = n.value
+            same = isinstance(v, ast.Call) and dotted(v.func) == 'str' and len(v.args) == 1 and dotted(v.args[0]) == hp2
+            run.ob('R06.6', mi, n, 'the requested host is not rewritten before it is classified', same, slot='host-rewritten@__init__',
+                   message='_SocksMachine.__init__ sets host = %s: the address sent is not the one the caller asked for' % src(v)[:50])
+    calls = [c for c in calls_in(mi) if dotted(c.func) == '_create_ip_address']
+    for c in calls:
+        a0 = c.args[0] if c.args else None
+        okh = a0 is not None and (dotted(a0) == hp2 or (isinstance(a0, ast.Call) and dotted(a0.func) == 'str' and len(a0.args) == 1 and dotted(a0.args[0]) == hp2))
+        run.ob('R06.6', mi, c, 'the classifier receives the caller\'s host', okh, slot='host-flow', message='_create_ip_address is given %s' % (src(a0) if a0 is not None else None))
 
 
 def r06_4(run):
@@ -470,6 +486,7 @@ RULES = [
 from ..selftest import M  # noqa: E402
 F = 'txtorcon/socks.py'
 MUTANTS = [
+    M('trailing-dot-stripped', F, "        self._addr = _create_ip_address(str(host), port)", "        host = str(host)\n        if host.endswith('.'):\n            host = host[:-1]\n        self._addr = _create_ip_address(host, port)", ['R06.6']),
     M('v4-mapped-rewritten', F, "        a = None\n    if isinstance(a, ipaddress.IPv4Address):", "        a = None\n    if isinstance(a, ipaddress.IPv6Address) and a.ipv4_mapped is not None:\n        a = a.ipv4_mapped\n    if isinstance(a, ipaddress.IPv4Address):", ['R06.6']),
     M('families-swapped', F, "    if isinstance(a, ipaddress.IPv4Address):\n        return IPv4Address('TCP', host, port)", "    if isinstance(a, ipaddress.IPv6Address):\n        return IPv4Address('TCP', host, port)", ['R06.6']),
     M('greeting-two-methods', F, "struct.pack('BBB', 5, 1, 0)", "struct.pack('BBB', 5, 2, 0)", ['R06.1']),
@@ -487,6 +504,7 @@ MUTANTS = [
     M('connect-encode-replace', F, "            host = host.encode('ascii')", "            host = host.encode('ascii', 'replace')", ['R06.4']),
 ]
 TWINS = [
+    M('host-str-first', F, "        self._addr = _create_ip_address(str(host), port)", "        host = str(host)\n        self._addr = _create_ip_address(host, port)"),
     M('greeting-literal', F, "struct.pack('BBB', 5, 1, 0)", "b'\\x05\\x01\\x00'"),
     M('gt-order', F, "                '!BBBBB{}sH'.format(len(host)),\n                5,                   # version\n                0xF0,", "                '>BBBBB{}sH'.format(len(host)),\n                5,                   # version\n                0xF0,"),
 ]
